@@ -16,10 +16,11 @@ func init() {
 	const mgr = "internal/stream/manager.go"
 	const agt = "internal/agent/agent.go"
 	const exh = "internal/exit/handler.go"
+	const rlt = "internal/agent/relay_table.go"
 	register(&Check{
 		ID: "C18", Level: "other", Patterns: []string{"./internal/agent"},
 		Technique: "CFG ordering/reachability, finite state tables over the five stream states, lock regions, map write-sets",
-		Explain: "Decides on the SSA of internal/stream, internal/agent, internal/exit and internal/forward: (R1) in every function that both delivers a frame's data (Stream.PushData / Conn.Write) and signals end-of-write (Stream.HandleRemoteFinWrite / CloseWrite) the delivery is never reachable after the signal and is not skipped for FIN frames; (R2) every io.EOF return of Stream.Read is preceded, after the last blocking channel operation, by a non-blocking receive from the read buffer that found it empty; (R3) CanWrite/CanRead have the documented truth table over the five states, meshConn.Write sends nothing when the stream is half-closed locally or closed, and meshConn.CloseWrite records the local half-close; (R4) every state store is guarded so that only documented transitions are possible and sits in the Stream mutex region together with the state read it depends on; (R5) close/reset handlers delete exactly the table entry addressed by the frame's stream id and never reach a bulk reset. " +
+		Explain: "Decides on the SSA of internal/stream, internal/agent, internal/exit and internal/forward: (R1) in every function that both delivers a frame's data (Stream.PushData / Conn.Write) and signals end-of-write (Stream.HandleRemoteFinWrite / CloseWrite) the delivery is never reachable after the signal and is not skipped for FIN frames; (R2) every io.EOF return of Stream.Read is preceded, after the last blocking channel operation, by a non-blocking receive from the read buffer that found it empty; (R3) CanWrite/CanRead have the documented truth table over the five states, meshConn.Write sends nothing when the stream is half-closed locally or closed, and meshConn.CloseWrite records the local half-close; (R4) every state store is guarded so that only documented transitions are possible and sits in the Stream mutex region together with the state read it depends on; (R5) close/reset handlers delete exactly the table entry addressed by the frame's stream id and never reach a bulk reset; (R6) an entry obtained from one index of a relay table by stream id is removed only when the sender is the peer of that index's side (not merely one of the entry's two endpoints); (R7) a transit hop forwards stream-data frames with the received flags. R1 also requires the FIN signal to stay reachable when the FIN frame carries data, R4 also requires the half-close functions to perform the documented transition out of each state they can meet (Open and the opposite half-closed state). " +
 			"Not decided: isolation between peers that use equal stream ids (C16), PushData blocking on a full buffer, and the race between a CanWrite check and a concurrent CloseWrite.",
 		Run: runC18,
 		SelfTests: []SelfTest{
@@ -89,6 +90,30 @@ func init() {
 			{Name: "meshConn.Read refuses after the local half-close", ExpectRule: "C18.R3", ExpectKey: "Read", Edits: []Edit{
 				{File: agt, Old: "func (c *meshConn) Read(b []byte) (int, error) {\n", New: "func (c *meshConn) Read(b []byte) (int, error) {\n\tif !c.stream.CanWrite() {\n\t\treturn 0, io.EOF\n\t}\n"},
 			}},
+			{Name: "FIN honoured only on empty frames", ExpectRule: "C18.R1", ExpectKey: "FIN-with-data", Edits: []Edit{
+				{File: mgr, Old: "\t\t\tm.onStreamData(stream, data)\n\t\t}\n\t}\n\n\t// Handle FIN flags\n\tif flags&protocol.FlagFinWrite != 0 {\n\t\tstream.HandleRemoteFinWrite()\n\t}\n", New: "\t\t\tm.onStreamData(stream, data)\n\t\t}\n\t} else if flags&protocol.FlagFinWrite != 0 {\n\t\tstream.HandleRemoteFinWrite()\n\t}\n"},
+			}},
+			{Name: "local half-close after remote FIN copies the wrong source state (CAS helper)", ExpectRule: "C18.R4", ExpectKey: "StateHalfClosedRemote->StateClosed", Edits: []Edit{
+				{File: mgr, Old: "\tstate := s.State()\n\tif state == StateOpen {\n\t\ts.SetState(StateHalfClosedLocal)\n\t} else if state == StateHalfClosedRemote {\n\t\t// Both sides closed\n\t\ts.SetState(StateClosed)\n\t}\n}", New: "\tif !s.transition(StateOpen, StateHalfClosedLocal) {\n\t\ts.transition(StateHalfClosedLocal, StateClosed)\n\t}\n}\n\nfunc (s *Stream) transition(from, to StreamState) bool {\n\treturn s.state.CompareAndSwap(int32(from), int32(to))\n}"},
+			}},
+			{Name: "remote FIN after local half-close is ignored", ExpectRule: "C18.R4", ExpectKey: "StateHalfClosedLocal->StateClosed", Edits: []Edit{
+				{File: mgr, Old: "\t} else if state == StateHalfClosedLocal {\n\t\t// Both sides closed\n\t\ts.SetState(StateClosed)\n\t}\n}", New: "\t}\n}"},
+			}},
+			{Name: "relay pop accepts the sender as either endpoint (merged branches)", ExpectRule: "C18.R6", ExpectKey: "PopMatchingPeer", Edits: []Edit{
+				{File: rlt, Old: "\tif up := r.byUpstream[streamID]; up != nil && up.UpstreamPeer == peer {\n\t\tdelete(r.byUpstream, up.UpstreamID)\n\t\tdelete(r.byDownstream, up.DownstreamID)\n\t\treturn up, true\n\t}\n\tif down := r.byDownstream[streamID]; down != nil && down.DownstreamPeer == peer {\n\t\tdelete(r.byUpstream, down.UpstreamID)\n\t\tdelete(r.byDownstream, down.DownstreamID)\n\t\treturn down, false\n\t}\n\treturn nil, false\n", New: "\tentry, fromUpstream = r.byUpstream[streamID], true\n\tif entry == nil || entry.UpstreamPeer != peer {\n\t\tentry, fromUpstream = r.byDownstream[streamID], false\n\t}\n\tif entry == nil || (entry.UpstreamPeer != peer && entry.DownstreamPeer != peer) {\n\t\treturn nil, false\n\t}\n\tdelete(r.byUpstream, entry.UpstreamID)\n\tdelete(r.byDownstream, entry.DownstreamID)\n\treturn entry, fromUpstream\n"},
+			}},
+			{Name: "relay pop checks the wrong side's peer", ExpectRule: "C18.R6", ExpectKey: "PopMatchingPeer", Edits: []Edit{
+				{File: rlt, Old: "down != nil && down.DownstreamPeer == peer {", New: "down != nil && down.UpstreamPeer == peer {"},
+			}},
+			{Name: "open-error pop no longer checks the sender", ExpectRule: "C18.R6", ExpectKey: "PopDownstreamFromPeer", Edits: []Edit{
+				{File: rlt, Old: "\tif e == nil || e.DownstreamPeer != peer {\n\t\treturn nil\n\t}\n", New: "\tif e == nil {\n\t\treturn nil\n\t}\n"},
+			}},
+			{Name: "agent removes a looked-up relay entry for either endpoint", ExpectRule: "C18.R6", ExpectKey: "handleStreamClose", Edits: []Edit{
+				{File: agt, Old: "\tif entry, fromUpstream := a.tcpRelay.PopMatchingPeer(frame.StreamID, peerID); entry != nil {\n\t\tdstPeer, dstID := entry.UpstreamPeer, entry.UpstreamID\n\t\tif fromUpstream {\n\t\t\tdstPeer, dstID = entry.DownstreamPeer, entry.DownstreamID\n\t\t}\n\t\tfwdFrame := &protocol.Frame{\n\t\t\tType:     protocol.FrameStreamClose,", New: "\tif down := a.tcpRelay.LookupDownstream(frame.StreamID); down != nil && (down.DownstreamPeer == peerID || down.UpstreamPeer == peerID) {\n\t\ta.tcpRelay.Delete(down)\n\t}\n\tif entry, fromUpstream := a.tcpRelay.PopMatchingPeer(frame.StreamID, peerID); entry != nil {\n\t\tdstPeer, dstID := entry.UpstreamPeer, entry.UpstreamID\n\t\tif fromUpstream {\n\t\t\tdstPeer, dstID = entry.DownstreamPeer, entry.DownstreamID\n\t\t}\n\t\tfwdFrame := &protocol.Frame{\n\t\t\tType:     protocol.FrameStreamClose,"},
+			}},
+			{Name: "transit hop drops the flags of relayed data frames", ExpectRule: "C18.R7", ExpectKey: "handleStreamData", Edits: []Edit{
+				{File: agt, Old: "\t\t\tStreamID: upRelay.DownstreamID,\n\t\t\tFlags:    frame.Flags,\n", New: "\t\t\tStreamID: upRelay.DownstreamID,\n"},
+			}},
 			// behaviour-preserving rewrites
 			{Name: "rewrite: CanWrite as a switch", Edits: []Edit{
 				{File: mgr, Old: "\tstate := s.State()\n\treturn state == StateOpen || state == StateHalfClosedRemote\n", New: "\tswitch s.State() {\n\tcase StateOpen, StateHalfClosedRemote:\n\t\treturn true\n\t}\n\treturn false\n"},
@@ -117,6 +142,9 @@ func init() {
 			{Name: "rewrite: local half-close as compare-and-swap transitions", Edits: []Edit{
 				{File: mgr, Old: "\tstate := s.State()\n\tif state == StateOpen {\n\t\ts.SetState(StateHalfClosedLocal)\n\t} else if state == StateHalfClosedRemote {\n\t\t// Both sides closed\n\t\ts.SetState(StateClosed)\n\t}\n}", New: "\tif !s.state.CompareAndSwap(int32(StateOpen), int32(StateHalfClosedLocal)) {\n\t\ts.state.CompareAndSwap(int32(StateHalfClosedRemote), int32(StateClosed))\n\t}\n}"},
 			}},
+			{Name: "rewrite: relay pop with one variable and side-correct checks", Edits: []Edit{
+				{File: rlt, Old: "\tif up := r.byUpstream[streamID]; up != nil && up.UpstreamPeer == peer {\n\t\tdelete(r.byUpstream, up.UpstreamID)\n\t\tdelete(r.byDownstream, up.DownstreamID)\n\t\treturn up, true\n\t}\n\tif down := r.byDownstream[streamID]; down != nil && down.DownstreamPeer == peer {\n\t\tdelete(r.byUpstream, down.UpstreamID)\n\t\tdelete(r.byDownstream, down.DownstreamID)\n\t\treturn down, false\n\t}\n\treturn nil, false\n", New: "\tentry, fromUpstream = r.byUpstream[streamID], true\n\tif entry == nil || entry.UpstreamPeer != peer {\n\t\tentry, fromUpstream = r.byDownstream[streamID], false\n\t\tif entry == nil || entry.DownstreamPeer != peer {\n\t\t\treturn nil, false\n\t\t}\n\t}\n\tdelete(r.byUpstream, entry.UpstreamID)\n\tdelete(r.byDownstream, entry.DownstreamID)\n\treturn entry, fromUpstream\n"},
+			}},
 		},
 	})
 }
@@ -135,6 +163,9 @@ type c18Ctx struct {
 	stateVal                       map[string]int64 // StateOpening.. -> value
 	stateName                      map[int64]string
 	finBit                         int64
+
+	sites, dynSites []c18Site
+	sitesDone       bool
 }
 
 const (
@@ -363,6 +394,8 @@ func runC18(p *kit.Program, r *kit.Report) {
 	cx.ruleR3()
 	cx.ruleR4()
 	cx.ruleR5()
+	cx.ruleR6()
+	cx.ruleR7()
 }
 
 // ---------- R1 ----------
@@ -410,6 +443,56 @@ func (cx *c18Ctx) finTest(cond ssa.Value) (whenSet bool, ok bool) {
 			return cx.finBit > k, true
 		}
 		return k > cx.finBit, true
+	}
+	return false, false
+}
+
+// c18NonEmptyAtom: conditions on the length of a slice parameter, evaluated for a non-empty slice.
+func c18NonEmptyAtom(cond ssa.Value) (bool, bool) {
+	b, ok := cond.(*ssa.BinOp)
+	if !ok {
+		return false, false
+	}
+	isLen := func(v ssa.Value) bool {
+		c, ok := v.(*ssa.Call)
+		if !ok || kit.CalleeOf(c).Built != "len" || len(c.Call.Args) != 1 {
+			return false
+		}
+		q, ok := c.Call.Args[0].(*ssa.Parameter)
+		if !ok {
+			return false
+		}
+		_, isSlice := q.Type().Underlying().(*types.Slice)
+		return isSlice
+	}
+	var k int64
+	var isc bool
+	op := b.Op
+	switch {
+	case isLen(b.X):
+		k, isc = kit.ConstInt(b.Y)
+	case isLen(b.Y):
+		k, isc = kit.ConstInt(b.X)
+		op = flipCmp(op)
+	}
+	if !isc || k > 1 || k < 0 {
+		return false, false
+	}
+	// agree for lengths 1 and 2
+	ord := func(n int64) int {
+		switch {
+		case n < k:
+			return -1
+		case n > k:
+			return 1
+		}
+		return 0
+	}
+	switch op {
+	case token.EQL, token.NEQ, token.LSS, token.LEQ, token.GTR, token.GEQ:
+		if cmpHolds(op, ord(1)) == cmpHolds(op, ord(2)) {
+			return cmpHolds(op, ord(1)), true
+		}
 	}
 	return false, false
 }
@@ -520,6 +603,22 @@ func (cx *c18Ctx) ruleR1() {
 			r.Decide(live, "C18.R1", fname+" delivery-with-FIN", p.Pos(in.fn.Pos()),
 				"the data delivery stays reachable when the FIN flag is set",
 				"no data delivery is reachable when the frame carries the FIN flag: data arriving together with the end-of-write signal is dropped")
+			// and the other way round: a FIN flag on a frame that carries data is still honoured
+			l2 := kit.LiveUnder(in.fn, func(cond ssa.Value) (bool, bool) {
+				if v, ok := cx.finTest(cond); ok {
+					return v, true
+				}
+				return c18NonEmptyAtom(cond)
+			})
+			finLive := false
+			for _, f := range in.fin {
+				if l2.CanReachFromEntry(f, nil) {
+					finLive = true
+				}
+			}
+			r.Decide(finLive, "C18.R1", fname+" FIN-with-data", p.Pos(in.fn.Pos()),
+				"the end-of-write signal stays reachable when the FIN frame also carries data",
+				"the end-of-write signal is unreachable when the FIN frame carries data (it is only honoured for empty frames): the reader gets the data but never end-of-stream")
 		}
 	}
 }
@@ -892,13 +991,9 @@ func (cx *c18Ctx) ruleR3() {
 	}
 	// meshConn.CloseWrite: after the FIN frame was sent the local half-close is recorded
 	records := map[*ssa.Function]bool{}
-	for _, f := range cx.p.FuncsInPkg("internal/stream") {
-		for _, c := range kit.Calls(f) {
-			if cx.isStateStore(c) {
-				if k, ok := kit.ConstInt(cx.storedState(c)); ok && k == cx.stateVal["StateHalfClosedLocal"] {
-					records[kit.TopLevel(f)] = true
-				}
-			}
+	for _, st := range cx.stateSites() {
+		if st.x == cx.stateVal["StateHalfClosedLocal"] && c18InPkg(st.fn, "internal/stream") {
+			records[kit.TopLevel(st.fn)] = true
 		}
 	}
 	var recCalls = map[ssa.Instruction]bool{}
@@ -964,28 +1059,22 @@ func (cx *c18Ctx) storedState(c ssa.CallInstruction) ssa.Value {
 	return kit.Unwrap(c.Common().Args[n-1])
 }
 
-func (cx *c18Ctx) ruleR4() {
-	p, r := cx.p, cx.r
-	// close context: functions (with their parents) that close the `closed` channel of the stream
-	closeCtx := map[*ssa.Function]bool{}
-	for _, f := range p.FuncsInPkg("internal/stream") {
-		for _, c := range kit.Calls(f) {
-			if kit.CalleeOf(c).Built == "close" {
-				if fld, _ := kit.LoadedField(c.Common().Args[0]); fld == cx.fClosed {
-					closeCtx[f] = true
-				}
-			}
-		}
+// c18Site is one store to the stream state with a constant target (wrappers resolved at their call sites).
+type c18Site struct {
+	fn   *ssa.Function
+	call ssa.CallInstruction
+	x    int64
+	from int64 // expected current state of a compare-and-swap, -1 when the store is unconditional
+	via  string
+}
+
+// stateSites collects (once) every store to the stream state in the repository.
+func (cx *c18Ctx) stateSites() []c18Site {
+	if cx.sitesDone {
+		return cx.sites
 	}
-	type site struct {
-		fn   *ssa.Function
-		call ssa.CallInstruction
-		x    int64
-		from int64 // expected current state of a compare-and-swap, -1 when the store is unconditional
-		via  string
-	}
-	var sites []site
-	nDynamic := 0
+	cx.sitesDone = true
+	p := cx.p
 	parIdx := func(fn *ssa.Function, v ssa.Value) int {
 		if par, ok := v.(*ssa.Parameter); ok {
 			for i, q := range fn.Params {
@@ -1009,7 +1098,7 @@ func (cx *c18Ctx) ruleR4() {
 			}
 		}
 		if newConst && oldConst {
-			sites = append(sites, site{fn, c, k, from, via})
+			cx.sites = append(cx.sites, c18Site{fn, c, k, from, via})
 			return
 		}
 		// parameters handed through by a wrapper: judge the wrapper's call sites
@@ -1033,9 +1122,7 @@ func (cx *c18Ctx) ruleR4() {
 		if liftable && fn == cx.fnSetState {
 			return // SetState itself with no further callers
 		}
-		nDynamic++
-		r.Violation("C18.R4", fmt.Sprintf("%s dynamic state store #%d", kit.FuncName(fn), nDynamic), p.Pos(c.Pos()),
-			"the stored state is not a constant: the transition cannot be one of the documented ones for every input")
+		cx.dynSites = append(cx.dynSites, c18Site{fn: fn, call: c})
 	}
 	for _, f := range p.RepoFuncs() {
 		for _, c := range kit.Calls(f) {
@@ -1051,7 +1138,28 @@ func (cx *c18Ctx) ruleR4() {
 			collect(f, c, cx.storedState(c), oldV, "", 0)
 		}
 	}
-	sort.SliceStable(sites, func(i, j int) bool { return sites[i].call.Pos() < sites[j].call.Pos() })
+	sort.SliceStable(cx.sites, func(i, j int) bool { return cx.sites[i].call.Pos() < cx.sites[j].call.Pos() })
+	return cx.sites
+}
+
+func (cx *c18Ctx) ruleR4() {
+	p, r := cx.p, cx.r
+	// close context: functions (with their parents) that close the `closed` channel of the stream
+	closeCtx := map[*ssa.Function]bool{}
+	for _, f := range p.FuncsInPkg("internal/stream") {
+		for _, c := range kit.Calls(f) {
+			if kit.CalleeOf(c).Built == "close" {
+				if fld, _ := kit.LoadedField(c.Common().Args[0]); fld == cx.fClosed {
+					closeCtx[f] = true
+				}
+			}
+		}
+	}
+	sites := cx.stateSites()
+	for i, d := range cx.dynSites {
+		r.Violation("C18.R4", fmt.Sprintf("%s dynamic state store #%d", kit.FuncName(d.fn), i+1), p.Pos(d.call.Pos()),
+			"the stored state is not a constant: the transition cannot be one of the documented ones for every input")
+	}
 	r.Count("r4_state_store_sites", len(sites))
 	r.Require(len(sites) >= 5, "floor: fewer than 5 constant stream-state stores found (have %d)", len(sites))
 	allowedFrom := map[int64]map[int64]bool{
@@ -1141,6 +1249,49 @@ func (cx *c18Ctx) ruleR4() {
 		r.Decide(lockOK, "C18.R4", key+" region", pos,
 			"store and the state read it depends on are in one region of the stream mutex",
 			why+": two concurrent transitions (local and remote half-close, or close) can both act on the same old state and the stream ends in a state that is not the documented successor")
+	}
+	// completeness: the function that performs the local half-close (it stores HalfClosedLocal) must also
+	// take HalfClosedRemote to Closed, and the one that records the remote FIN (it stores
+	// HalfClosedRemote) must also take HalfClosedLocal to Closed — otherwise the second half-close
+	// leaves the stream writable/open
+	type need struct{ from, to string }
+	for _, role := range []struct {
+		marker string
+		needs  []need
+		what   string
+	}{
+		{"StateHalfClosedLocal", []need{{"StateOpen", "StateHalfClosedLocal"}, {"StateHalfClosedRemote", "StateClosed"}}, "local half-close"},
+		{"StateHalfClosedRemote", []need{{"StateOpen", "StateHalfClosedRemote"}, {"StateHalfClosedLocal", "StateClosed"}}, "remote end-of-write"},
+	} {
+		var fns []*ssa.Function
+		seenFn := map[*ssa.Function]bool{}
+		for _, st := range sites {
+			if st.x == cx.stateVal[role.marker] && !seenFn[st.fn] && c18InPkg(st.fn, "internal/stream") {
+				seenFn[st.fn] = true
+				fns = append(fns, st.fn)
+			}
+		}
+		for _, fn := range fns {
+			for _, nd := range role.needs {
+				from, to := cx.stateVal[nd.from], cx.stateVal[nd.to]
+				ok := false
+				for _, st := range sites {
+					if st.fn != fn || st.x != to {
+						continue
+					}
+					if st.from >= 0 {
+						ok = ok || st.from == from
+						continue
+					}
+					if kit.LiveUnder(fn, cx.stateAtom(from, nil)).CanReachFromEntry(st.call, nil) {
+						ok = true
+					}
+				}
+				r.Decide(ok, "C18.R4", fmt.Sprintf("%s performs %s->%s", kit.FuncName(fn), nd.from, nd.to), p.Pos(fn.Pos()),
+					"the "+role.what+" moves a stream in "+nd.from+" to "+nd.to,
+					"the "+role.what+" has no transition from "+nd.from+" to "+nd.to+": when the other side half-closed first the stream stays in "+nd.from+" (writes after the local half-close are still accepted / the stream never reaches Closed)")
+			}
+		}
 	}
 }
 
